@@ -64,12 +64,15 @@ theorem w_no_write {s : St} {i : Nat} {a : WAct} {p q : WP} (hm : MInv s) (hthd 
     (hw : WFacts s i a p q) : wWrite s.g a p (tsAt s i) = tsAt s i := by
   obtain ⟨hi, hpci, hn, hgT, hgO⟩ := hw
   have ⟨tp, _⟩ := tbl_holdsT hn
-  have hnl : a ≠ .lockT := by intro hc; have := hgT hc; rw [hthd] at this; cases this
+  have hnl : a.locksT = false := by
+    cases hc : a.locksT with
+    | false => rfl
+    | true => have := hgT hc; rw [hthd] at this; cases this
   have hnt : a ≠ .time := by
     intro hc
     have := (hm.thdW i).mpr (by rw [hpci]; exact tp.mpr (Or.inl hc))
     rw [hthd] at this; cases this
-  cases a <;> cases p <;> simp_all [wWrite]
+  cases a <;> cases p <;> simp_all [wWrite, WAct.locksT]
 
 theorem ainv_step {s s' : St} {l : Label} (h : Inv s) (ha : AInv s) (hs : step s l = some s') : AInv s' := by
   have hx := step_live hs
@@ -186,6 +189,10 @@ theorem ainv_step {s s' : St} {l : Label} (h : Inv s) (ha : AInv s) (hs : step s
           exact ⟨fun k hk => by simp at hk, fun _ => a2 (by rw [hw]; rfl), fun hc => by simp [hx] at hc⟩
         · rename_i k0 hw
           exact ⟨fun k hk => by simp at hk, fun _ => a2 (by rw [hw]; rfl), fun hc => by simp [hx] at hc⟩
+        · rename_i k0 hw
+          exact ⟨fun k hk => by simp at hk, fun _ => a2 (by rw [hw]; rfl), fun hc => by simp [hx] at hc⟩
+        · rename_i hw
+          exact ⟨fun k hk => by simp at hk, fun _ => a2 (by rw [hw]; rfl), fun hc => by simp [hx] at hc⟩
         · rename_i hw
           refine ⟨fun k hk => ?_, fun _ => a2 (by rw [hw]; rfl), fun hc => by simp [hx] at hc⟩
           revert hk; simp only; split <;> simp
@@ -195,6 +202,9 @@ theorem ainv_step {s s' : St} {l : Label} (h : Inv s) (ha : AInv s) (hs : step s
       split at hd
       · simp only [Option.some.injEq] at hd; subst hd
         rename_i hw
+        exact ⟨fun k hk => by simp at hk, fun _ => a2 (by rw [hw]; rfl), fun hc => by simp [hx] at hc⟩
+      · simp only [Option.some.injEq] at hd; subst hd
+        rename_i k0 hw
         exact ⟨fun k hk => by simp at hk, fun _ => a2 (by rw [hw]; rfl), fun hc => by simp [hx] at hc⟩
       · split at hd <;> simp at hd; subst hd
         exact ⟨fun k hk => by simp at hk, fun hp => by simp [SPC.preAbort] at hp, fun hc => by simp [hx] at hc⟩
